@@ -247,6 +247,8 @@ def run(rep: Report, prog: Program, tier: str) -> None:
                  "abandonment / FORWARD-TSN handling never loses or blocks messages of other (reliable) channels (rules C06-WHOLE, C06-RECV)", 100)
 
     # "every message is delivered" needs the retransmission machinery to keep running: shared with C02
+    from .sctploop import loop_rule
+    loop_rule(rep, prog, PROP, "C01-LOOP", tier)
     import_rules(rep, prog, tier, PROP, "C01-RETX", "C02", ["C02-T3", "C02-KICK", "C02-FS"],
                  "lost chunks keep being retransmitted: T3 is (re)armed whenever data is outstanding, queued data is kicked, flight-size accounting cannot stall "
                  "the sender (rules C02-T3, C02-KICK, C02-FS)", 10)
